@@ -45,11 +45,11 @@ PROPS = {
     'C04': dict(families=[_nesting, _stream], trusted_base=[PY, CODECS]),
     'C05': dict(families=[_dom], extra_props=['C05_full'], trusted_base=[PY, CODECS, JSON]),
     'C06': dict(families=[_dom], extra_props=['C06_full', 'C06_foreign'], trusted_base=[PY, CODECS, JSON]),
-    'C07': dict(families=[_truncate], trusted_base=[PY, CODECS, JSON]),
+    'C07': dict(families=[_truncate], extra_props=['C07_file'], trusted_base=[PY, CODECS, JSON]),
     'C08': dict(families=[_fuzz], trusted_base=[PY, CODECS, JSON,
                 'runtime-only failures (MemoryError, non-BytesIO streams) are outside the modelled primitive set']),
     'C09': dict(families=[_calls], trusted_base=[PY, CODECS]),
-    'C10': dict(families=[_order], extra_props=['C10_complete'], trusted_base=[PY]),
+    'C10': dict(families=[_order], extra_props=['C10_complete', 'C10_writer'], trusted_base=[PY]),
     'C11': dict(families=[_header], trusted_base=[PY, 'sys.get_int_max_str_digits() = 4300']),
     'C12': dict(families=[_foreign, _header, _specfile], extra_props=['C12_file'], trusted_base=[PY]),
     'C13': dict(families=[_stats], trusted_base=[PY, CODECS]),
